@@ -146,6 +146,12 @@ func TestEngineQuery(t *testing.T) {
 	app := c.s.ChainApp.IbcTestingApp().(*chainapp.Evermint)
 	runner := f.addrs[5]
 
+	kvKeys := app.GetKVStoreKey()
+	var kvNames []string
+	for nm := range kvKeys {
+		kvNames = append(kvNames, nm)
+	}
+	sort.Strings(kvNames)
 	queryHeight := int64(0)
 	query := func(path string, req proto.Message, out proto.Message) (uint32, string) {
 		bz, err := proto.Marshal(req)
@@ -199,7 +205,9 @@ func TestEngineQuery(t *testing.T) {
 		case 6:
 			return call{"selfdestruct", &sd, common.LeftPadBytes(c.wallets[4].GetEthAddress().Bytes(), 20), 0, false}
 		case 7:
-			return call{"create", nil, initCode(codeLogger), 0, false}
+			// runtime code that is not in the code store yet (a simulated deployment must not leave the blob behind)
+			fresh := append(append([]byte{}, codeLogger...), 0xfe, byte(r.U64()), byte(r.U64()), byte(r.U64()))
+			return call{"create", nil, initCode(fresh), 0, false}
 		default:
 			return call{"reverter", &reverter, nil, 0, true}
 		}
@@ -237,6 +245,33 @@ func TestEngineQuery(t *testing.T) {
 		var est evmtypes.EstimateGasResponse
 		codeE, logE := query("/ethermint.evm.v1.Query/EstimateGas", ethCallReq(cl, 0), &est)
 		same("estimateGas")
+		// ---- the same two queries at keeper level, on a branch of the committed state that is NOT discarded by BaseApp:
+		// every KV store of the branch must be byte-identical afterwards (commit = false writes nothing, C08_no_commit_no_write)
+		{
+			cc, _ := c.ctx().CacheContext()
+			b0 := dumpStores(cc, kvKeys, kvNames)
+			_, _ = c.s.ChainApp.EvmKeeper().EthCall(cc, ethCallReq(cl, gasLimit))
+			if d := diffDumps(b0, dumpStores(cc, kvKeys, kvNames)); len(d) > 0 {
+				p.Oracle("C08-store-modified", "keeper-level eth_call (commit=false) wrote %d store entries on its own context, first: %s; call %s", len(d), strings.Join(firstK(d, 3), ";"), cl.name)
+			}
+			cc2, _ := c.ctx().CacheContext()
+			_, _ = c.s.ChainApp.EvmKeeper().EstimateGas(cc2, ethCallReq(cl, 0))
+			if d := diffDumps(b0, dumpStores(cc2, kvKeys, kvNames)); len(d) > 0 {
+				p.Oracle("C08-store-modified", "keeper-level estimateGas wrote %d store entries on its own context, first: %s; call %s", len(d), strings.Join(firstK(d, 3), ";"), cl.name)
+			}
+			ops = append(ops, "keeper-level")
+		}
+		// ---- estimateGas with the caller's gas above a gas cap that is below what the call needs: the only correct
+		// answers are an error or an estimate that is at least the requirement found without the cap
+		if codeE == 0 && est.Gas > 30_000 && cl.pure {
+			capped := ethCallReq(cl, 10_000_000)
+			capped.GasCap = est.Gas - uint64(1+r.Intn(int(est.Gas-21_000)))
+			var est2 evmtypes.EstimateGasResponse
+			if code2, _ := query("/ethermint.evm.v1.Query/EstimateGas", capped, &est2); code2 == 0 && est2.Gas < est.Gas {
+				p.Oracle("C08-estimate-not-executable", "%s: needs %d gas; with gas cap %d (caller gas 10000000) estimateGas returned %d, a limit the call cannot run with", cl.name, est.Gas, capped.GasCap, est2.Gas)
+			}
+			same("estimateGas-capped")
+		}
 		// ---- other queries ------------------------------------------------------------------------------------------
 		switch r.Intn(6) {
 		case 0:
